@@ -356,6 +356,11 @@ func ModelConn(svc ServiceSpec, frames []FrameSpec, stopAfter int, scripts map[i
 					emit(stdError(cid, a.Name, field, a.Arg))
 				case "fail":
 					failed = true
+				case "stream":
+					// how many replies get out depends on when the peer goes away
+					if cm.AmbiguousFrom < 0 {
+						cm.AmbiguousFrom = len(cm.Replies)
+					}
 				case "rawread", "rawwrite", "readframe":
 					cm.RawMode = true
 				}
